@@ -18,7 +18,7 @@ Definition log_eqb (a b : list (bool * N)) : bool :=
 Record aobs := { ob_err : option aerr; ob_policy : option N; ob_staging : option N; ob_log : list (bool * N); ob_loadable : bool }.
 
 (** API level: what is read back after one call - its error (0 none, 1 unauthorized key, 2 cannot meet
-    threshold, 3 invalid threshold, 4 Apply refused, 9 anything else), the staged root (principals of
+    threshold, 3 invalid threshold, 4 Apply refused, 5 cannot reinitialize, 9 anything else), the staged root (principals of
     the root role, threshold, version, key ids of the envelope's signatures), whether the policy
     reference equals the staging reference, and whether LoadCurrentState(policy) succeeds *)
 Record apiobs := { ao_err : nat; ao_keys : list key; ao_thr : Z; ao_version : N; ao_signers : list key;
@@ -32,7 +32,7 @@ Inductive c12case :=
 Definition kset_eqb (a b : list key) : bool := forallb (fun x => kmem x b) a && forallb (fun x => kmem x a) b.
 
 Definition apierr_code (e : option apierr) : nat :=
-  match e with None => 0 | Some EUnauthorized => 1 | Some ECannotMeet => 2 | Some EInvalidThreshold => 3 | Some EApplyRefused => 4 end.
+  match e with None => 0 | Some EUnauthorized => 1 | Some ECannotMeet => 2 | Some EInvalidThreshold => 3 | Some EApplyRefused => 4 | Some EReinit => 5 end.
 
 Definition root_same (ob : apiobs) (keys : list key) (thr : Z) (ver : N) (sg : list key) : bool :=
   kset_eqb (ao_keys ob) keys && (ao_thr ob =? thr)%Z && N.eqb (ao_version ob) ver && kset_eqb (ao_signers ob) sg.
@@ -46,6 +46,7 @@ Fixpoint api_spec (keys : list key) (thr : Z) (ver : N) (sg : list key) (steps :
   | (signer, o, ob) :: steps' =>
       if is_edit o && negb (kmem signer keys) && (Nat.eqb (ao_err ob) 0 || negb (root_same ob keys thr ver sg)) then 10
       else if (match o with RApply => true | _ => false end) && Nat.eqb (ao_err ob) 0 && negb (ao_applied ob && ao_loadable ob) then 11
+      else if (match o with RInit => true | _ => false end) && Nat.eqb (ao_err ob) 0 then 12   (* a second root of trust was initialised *)
       else api_spec (ao_keys ob) (ao_thr ob) (ao_version ob) (ao_signers ob) steps'
   end.
 
